@@ -298,18 +298,21 @@ class MATCHConv2d(nn.Conv2d, MATCHModule):
         :param kernel_size: the kernel size
         :type kernel_size: int
         """
+        # the weight tensor of a grouped (e.g. depthwise) convolution holds in_channels // groups
+        # input channels per filter
+        in_ch = self.in_channels // self.groups
         if pad_dim == 0:
-            padded_weights = torch.zeros(self.out_channels, self.in_channels,
+            padded_weights = torch.zeros(self.out_channels, in_ch,
                                          kernel_size * dilation - (dilation - 1),
                                          1,
                                          device=self.device)
         else:
-            padded_weights = torch.zeros(self.out_channels, self.in_channels,
+            padded_weights = torch.zeros(self.out_channels, in_ch,
                                          1,
                                          kernel_size * dilation - (dilation - 1),
                                          device=self.device)
         for c_out in range(self.out_channels):
-            for c_in in range(self.in_channels):
+            for c_in in range(in_ch):
                 for i in range(kernel_size):
                     if pad_dim == 0:
                         padded_weights[c_out, c_in, i * dilation] = self.weight[c_out, c_in, i]
